@@ -20,24 +20,35 @@ TECHNIQUE = (
     "run against a scripted peer that cuts the connection (EOF, reset, silence) after every byte offset of its handshake/ack/reply "
     "stream; every operation's result class and virtual completion time is recorded and judged (bounded end, no fabricated data, "
     "recovery through reconnect, harmless double close); an empty virtual schedule is the 'blocks forever' verdict; a seeded sample "
-    "repeats the cuts on real loopback TCP / unix sockets"
+    "repeats the cuts on real loopback TCP / unix sockets; the same cuts are repeated with TWO operations from two tasks in flight on one "
+    "transport object (write+read, read+write, read+read, read or write + close()/reconnect() from another task): every suspended "
+    "operation must end (a watchdog in virtual time names the one that does not), close()/reconnect() must return and the new "
+    "connection must work; at client level every cut is run with the retry count given by the constructor and, on a client built with "
+    "the default max_retry=0, by the per-request UDSRequestConfig"
 )
 LEVEL_TEXT = (
     "Fault enumeration: transport in {tcp-lines, unix-lines, DoIP, HSFZ} x cut at every byte offset (hence every frame boundary and "
     "every position inside handshake, ack and reply frames) x cut kind {EOF, reset, silence} x caller timeout {0.3, 2, none} at "
-    "transport level, and x peer restart delay {0, 0.05, 1.5} x max_retry {1, 2} at UDS client level, in virtual time; plus real "
-    "loopback sockets (close, SO_LINGER reset, stall, restart) for a seeded sample. Held = every recorded operation ended in bounded "
+    "transport level, and x peer restart delay {0, 0.05, 1.5} x max_retry {1, 2} x retry count configured via {constructor, per-request "
+    "config} at UDS client level, in virtual time; pair level: operation pair {write+read, read+write, read+read, read+close, "
+    "read+reconnect, write+close} from two tasks on one transport x every byte offset after the handshake (read+write: cut times "
+    "before/between/after ack and reply) x cut kind x caller timeouts {none, 0.3, 2} per operation; plus real "
+    "loopback sockets (close, SO_LINGER reset, stall, restart; read pending while another task closes / reconnects) for a seeded sample. Held = every recorded operation ended in bounded "
     "virtual time with a timeout / connection error / explicit EOF or the complete genuine reply, and the client recovered where the "
     "statement promises it."
 )
 LEVEL_NOTE = "Trusted: gateway simulator (vf/gateway.py) and its reset model (reader exception + failing writer), virtual clock. Real-socket part uses wall-clock only as the operations' own short timeouts."
 RULE = (
-    "cases = (transport, level, cut offset, cut kind, caller timeout, restart delay, max_retry); offsets enumerated over the whole "
+    "cases = (transport, level, cut offset, cut kind, caller timeout, restart delay, max_retry, where the retry count is configured; "
+    "at pair level: operation pair, both caller timeouts, delay of the closing task); offsets enumerated over the whole "
     "peer->client stream of one exchange; non-trivial = the cut falls before the end of the stream; distinct = distinct case tuples"
 )
 ASSUMPTIONS = [
     "silence without a caller timeout is only required to end for writes (ack time); reads in that combination are not generated",
     "recovery is required after EOF/reset (and after a missing ack, which closes the connection) when the peer accepts again before the client's reconnect attempt; a silent peer that keeps the connection open gives no reconnect",
+    "pair level: a read without caller timeout facing a silent peer is only generated together with a close()/reconnect() from another task and then has to end after that local close; an operation without caller timeout that shares the transport with one that has a timeout may take that timeout + ack time; which of two concurrent reads gets the reply and whether a concurrent reader steals the writer's ack is C06/C07's subject and not judged (only: bounded end, error class, no fabricated or duplicated data)",
+    "pair level, virtual time: a local close of the stream feeds EOF to the stream reader one loop iteration later (asyncio's connection_lost); the real-socket sample checks the same combinations against asyncio itself for the line transports",
+    "two concurrent read() calls on a line transport are not generated (asyncio's StreamReader forbids two waiting readers)",
     "virtual-time reset = the reader raises ConnectionResetError and writes fail; TCP half-close subtleties are only covered by the real-socket sample",
 ]
 EXHAUSTIVE = {"quick": True, "thorough": True}
@@ -52,13 +63,14 @@ SRC, TGT = 0x0E00, 0x001D
 HS, HD = 0xF4, 0x10
 
 
+VIAS = ["constructor", "request-config"]  # where the client's retry count is configured
 HORIZON = 20000.0  # virtual seconds; far beyond (max_retry + 1) x (timeout + ack time + pending polls + backoff)
 
 
 def shards(tier: str, seed: int) -> list[dict[str, Any]]:
     if tier == "quick":
-        return [{"mode": "virtual", "transport": t, "step": 1, "client": c} for t in TRANSPORTS for c in (False, True)] + [{"mode": "real", "n": 6, "part": i} for i in range(4)]
-    return [{"mode": "virtual", "transport": t, "step": 1, "client": c, "half": h} for t in TRANSPORTS for c in (False, True) for h in (0, 1)] + [{"mode": "real", "n": 40, "part": i} for i in range(8)]
+        return [{"mode": "virtual", "transport": t, "step": 1, "client": c} for t in TRANSPORTS for c in (False, True)] + [{"mode": "virtual", "transport": t, "pair": True} for t in TRANSPORTS] + [{"mode": "real", "n": 6, "part": i} for i in range(4)]
+    return [{"mode": "virtual", "transport": t, "step": 1, "client": c, "half": h} for t in TRANSPORTS for c in (False, True) for h in (0, 1)] + [{"mode": "virtual", "transport": t, "pair": True} for t in TRANSPORTS] + [{"mode": "real", "n": 40, "part": i} for i in range(8)]
 
 
 def required_reach(tier: str) -> dict[str, int]:
@@ -69,6 +81,19 @@ def required_reach(tier: str) -> dict[str, int]:
             if k != "silence":
                 r[f"cell:{t}:{k}:no-timeout"] = 3
         r[f"recovered:{t}"] = 3
+    for t in TRANSPORTS:
+        framed = t in ("doip", "hsfz")
+        r[f"recovered-via-request-config:{t}"] = 3
+        r[f"pair.closer-while-read-pending.no-timeout:{t}"] = 5
+        r[f"pair.reconnect-recovered:{t}"] = 5
+        for combo in PAIR_COMBOS:
+            if framed or combo not in ("read+read", "write+close"):
+                r[f"pair:{t}:{combo}"] = 10
+        if framed:
+            r[f"pair.two-suspended-at-cut.no-timeout:{t}"] = 20
+            r[f"pair.closer-while-write-pending:{t}"] = 5
+    r.update({"client.retry-via-request-config": 200, "client.retry-via-request-config:eof": 50, "client.retry-via-request-config:reset": 50, "client.retry-via-request-config.cut-after-pending": 20,
+              "real.recovered-via-request-config": 4, "real.closer-while-read-pending": 4, "real.pair-reconnect-recovered": 4})
     r.update({"client.cut-after-pending": 20, "client.second-connection-silent": 10, "client.two-requests.first-failed": 20, "reconnect-api.peer-back-in-time": 40, "reconnect-api.peer-too-late": 20, "cut.mid-header": 10, "cut.mid-payload": 10, "cut.frame-boundary": 6, "close-twice": 100, "real.cases": 10, "real.recovered": 2})
     return r
 
@@ -125,6 +150,21 @@ def split_for(t: str) -> Any:
     return lines
 
 
+def link_close(g: gateway.Gateway) -> None:
+    """asyncio's connection_lost() after a local close: StreamReaderProtocol feeds EOF to the reader in a later loop iteration, which
+    ends a readline() that another task is suspended in. The in-memory writer has no protocol, so the link is modelled here (pair
+    level only, where a task closes the transport while another one reads from it)."""
+    loop = asyncio.get_running_loop()
+    orig = g.writer.close
+
+    def close() -> None:
+        orig()
+        if g.reader.exception() is None:
+            loop.call_soon(g.reader.feed_eof)
+
+    g.writer.close = close  # type: ignore[method-assign]
+
+
 def make_factory(sc: dict[str, Any], gws: list[gateway.Gateway], t0: list[float]) -> Any:
     t = sc["transport"]
     frames = peer_stream(t, sc.get("pending", False))
@@ -135,6 +175,8 @@ def make_factory(sc: dict[str, Any], gws: list[gateway.Gateway], t0: list[float]
         if n > 1 and loop.time() < t0[0] + sc.get("restart_at", 0.0):
             return ConnectionRefusedError("peer not accepting yet")
         g = gateway.Gateway(split_for(t))
+        if sc.get("level") == "pair":
+            link_close(g)
         if n == 2 and sc.get("second_silent"):
             # the restarting gateway accepts the TCP connection but does not talk yet
             gws.append(g)
@@ -213,6 +255,204 @@ async def run_transport_level(sc: dict[str, Any]) -> dict[str, Any]:
         return {"ops": ops, "accepted": len(hub.connections), "attempts": hub.attempts, "cut_time": gws[0].cut_time if gws else None}
 
 
+# ---- two operations suspended on one transport ----------------------------------------------------------
+WATCH = 60.0  # virtual seconds after which an operation that has not ended is reported as blocked (far beyond timeout + ack time)
+PAIR_COMBOS = ("write+read", "read+write", "read+read", "read+close", "read+reconnect", "write+close")
+
+
+async def run_pair_level(sc: dict[str, Any]) -> dict[str, Any]:
+    """Two operations on ONE transport object, issued by two tasks, both (possibly) suspended when the peer cuts the connection:
+      write+read      a write() waiting for its ack, then a read() from a second task
+      read+write      a read() waiting for data, then a write() from a second task (the cut comes `cut_after` seconds later)
+      read+read       (after an acknowledged write) two read() calls from two tasks
+      read+close      (after an acknowledged write) a read(); after the loss another task calls close()
+      read+reconnect  the same with reconnect(); the peer accepts again and the new transport must complete an exchange
+      write+close     a write() waiting for its ack; after the loss another task calls close()
+    Every operation is recorded with start time, end time (None = still suspended WATCH virtual seconds later) and result."""
+    loop = asyncio.get_running_loop()
+    gws: list[gateway.Gateway] = []
+    t0 = [loop.time()]
+    ops: list[dict[str, Any]] = []
+    cls = transport_class(sc["transport"])
+    combo = sc["combo"]
+    kept: dict[str, Any] = {}
+
+    async def op(name: str, coro: Any, timeout: Any = "n/a") -> dict[str, Any]:
+        rec: dict[str, Any] = {"op": name, "ts": loop.time(), "te": None, "timeout": timeout, "hung": False, "res": ("exc", "STILL-SUSPENDED", False, False, "")}
+        ops.append(rec)
+        try:
+            r = await coro
+            rec["res"] = ("ok", r if isinstance(r, (bytes, int)) else None)
+            kept[name] = r
+        except BaseException as e:
+            if isinstance(e, asyncio.CancelledError) and rec["hung"]:
+                return rec  # ended by the harness' watchdog, not by the code under test
+            rec["res"] = ("exc", type(e).__name__, isinstance(e, ConnectionError), isinstance(e, TimeoutError), repr(e)[:120])
+        rec["te"] = loop.time()
+        return rec
+
+    out: dict[str, Any] = {"ops": ops}
+    with gateway.GatewayHub(make_factory(sc, gws, t0)) as hub:
+        await op("connect", cls.connect(uri(sc["transport"]), timeout=5.0))
+        tr = kept.get("connect")
+        if tr is None:
+            return out
+        tasks: list[asyncio.Task[Any]] = []
+
+        def start(name: str, coro: Any, to: Any) -> None:
+            tasks.append(loop.create_task(op(name, coro, to)))
+
+        async def closer() -> None:
+            # acts `close_delay` after the loss (what a watchdog / teardown handler of the application does)
+            limit = loop.time() + 1.0
+            while gws[0].cut_time is None and loop.time() < limit:
+                await asyncio.sleep(0.005)
+            await asyncio.sleep(sc["close_delay"])
+            if combo == "read+reconnect":
+                r = await op("reconnect", tr.reconnect(timeout=5.0))
+                tr2 = kept.get("reconnect")
+                if r["res"][0] == "ok" and tr2 is not None:
+                    out["new_object"] = tr2 is not tr
+                    await op("request2", tr2.request(REQ, timeout=2.0), 2.0)
+                    await op("close-new", tr2.close())
+                    await op("close-new2", tr2.close())
+            else:
+                await op("close-other-task", tr.close())
+
+        t1, t2 = sc["t1"], sc["t2"]
+        go = True
+        if combo in ("read+read", "read+close", "read+reconnect"):
+            w = await op("write0", tr.write(REQ, timeout=2.0), 2.0)
+            go = w["res"][0] == "ok"
+        if go:
+            if combo == "write+read":
+                start("write", tr.write(REQ, timeout=t1), t1)
+                await asyncio.sleep(0.001)
+                start("read", tr.read(timeout=t2), t2)
+            elif combo == "read+write":
+                start("read", tr.read(timeout=t1), t1)
+                await asyncio.sleep(0.001)
+                start("write", tr.write(REQ, timeout=t2), t2)
+                gws[0].cut_at(sc["cut_after"], sc["kind"])
+            elif combo == "read+read":
+                start("read1", tr.read(timeout=t1), t1)
+                await asyncio.sleep(0.001)
+                start("read2", tr.read(timeout=t2), t2)
+            elif combo == "write+close":
+                start("write", tr.write(REQ, timeout=t1), t1)
+                tasks.append(loop.create_task(closer()))
+            else:
+                start("read", tr.read(timeout=t1), t1)
+                tasks.append(loop.create_task(closer()))
+            _, pending = await asyncio.wait(tasks, timeout=WATCH)
+            for rec in ops:
+                if rec["te"] is None:
+                    rec["hung"] = True
+            for tk in pending:
+                tk.cancel()
+            if pending:
+                await asyncio.wait(pending, timeout=5.0)
+        # closing after the loss, twice, from the main task
+        await op("close", asyncio.wait_for(tr.close(), WATCH))
+        await op("close2", asyncio.wait_for(tr.close(), WATCH))
+        out.update({"accepted": len(hub.connections), "attempts": hub.attempts, "cut_time": gws[0].cut_time, "fed_bytes": gws[0].fed_bytes})
+    return out
+
+
+def check_pair(ctx: Any, sc: dict[str, Any], out: dict[str, Any]) -> None:
+    t, combo, kind = sc["transport"], sc["combo"], sc["kind"]
+    ack = ACK_TIME[t]
+    ops = out["ops"]
+    w = {"scenario": sc, "ops": ops, "cut_time": out.get("cut_time"), "fed_bytes": out.get("fed_bytes")}
+    ctx.reach(f"pair:{t}:{combo}")
+    if "cut_time" not in out:
+        c = ops[0]["res"]
+        if not (c[2] or c[3]):
+            ctx.violation(f"{t}/pair/connect/{c[1]}", "connect() failed with something other than a timeout / connection error", w)
+        return
+    # what the peer sent completely before the cut (the oracle's only knowledge about data)
+    complete = set()
+    off = 0
+    for lab, f in peer_stream(t):
+        off += len(f)
+        if out["fed_bytes"] >= off:
+            complete.add(lab)
+    ct = out["cut_time"]
+    main_ops = [o for o in ops if o["op"] in ("read", "write", "read1", "read2")]
+    closers = [o for o in ops if o["op"] in ("close-other-task", "reconnect")]
+    if ct is not None:
+        susp = [o for o in main_ops if o["ts"] <= ct and (o["te"] is None or o["te"] >= ct - 1e-9)]
+        if len(susp) >= 2:
+            ctx.reach(f"pair.two-suspended-at-cut:{t}")
+            if any(o["timeout"] is None for o in susp):
+                ctx.reach(f"pair.two-suspended-at-cut.no-timeout:{t}")
+    for c in closers:
+        for o in main_ops:
+            if o["te"] is None or o["te"] >= c["ts"] - 1e-9:
+                ctx.reach(f"pair.closer-while-{o['op']}-pending:{t}")
+                if o["timeout"] is None:
+                    ctx.reach(f"pair.closer-while-{o['op']}-pending.no-timeout:{t}")
+    others_t = max([o["timeout"] for o in main_ops if isinstance(o["timeout"], float)] + [0.0])
+    closer_ts = max([c["ts"] for c in closers] + [0.0])
+    replies = 0
+    for o in ops:
+        name, res = o["op"], o["res"]
+        base = name.rstrip("012")
+        to = o["timeout"]
+        tkey = "timeout" if isinstance(to, float) else "no-timeout"
+        if name == "connect":
+            if res[0] != "ok":
+                ctx.violation(f"{t}/pair/connect/{res[1]}", "connect() failed although the peer completed the handshake", w)
+            continue
+        if o["hung"]:
+            if base == "read" and to is None and ct is None:
+                ctx.reach("pair.cut-not-reached")  # the scripted loss never happened: an unbounded read is allowed to wait
+                continue
+            ctx.violation(f"{t}/pair/{combo}/blocks-forever/{base}/{kind}/{tkey}",
+                          f"{name}() was still suspended {WATCH:.0f} virtual seconds after the peer cut the connection while two operations were in flight on the transport", w)
+            continue
+        dur = o["te"] - o["ts"]
+        if name in ("close", "close2", "close-other-task", "close-new", "close-new2"):
+            ctx.reach("close-twice")
+            if res[0] != "ok":
+                ctx.violation(f"{t}/pair/{combo}/{name}/{res[1]}", "closing the transport after connection loss (from another task / twice) raises or does not return", w)
+            continue
+        if name == "reconnect":
+            if res[0] != "ok":
+                ctx.violation(f"{t}/pair/{combo}/reconnect-fails/{kind}/{res[1]}", "the peer accepts connections again but reconnect() of the lost transport (another task is suspended in read()) fails", w)
+            continue
+        if name == "request2":
+            if res != ("ok", REPLY):
+                ctx.violation(f"{t}/pair/{combo}/new-connection-unusable/{res[1] if res[0] == 'exc' else 'other-data'}", "the transport returned by reconnect() cannot complete an exchange", w)
+            else:
+                ctx.reach(f"pair.reconnect-recovered:{t}")
+            continue
+        # read / write: result class
+        if res[0] == "ok":
+            if base == "write":
+                if not ("ack" in complete or t in ("tcp-lines", "unix-lines")):
+                    ctx.violation(f"{t}/pair/{combo}/write-completes-without-ack/{kind}", "write() completed although the ack never arrived completely", w)
+            elif res[1] == b"":
+                ctx.reach("read.eof-result")
+            elif res[1] == REPLY and "reply" in complete:
+                replies += 1
+                if replies > 1:
+                    ctx.violation(f"{t}/pair/{combo}/reply-delivered-twice/{kind}", "two read() calls returned the one reply the peer sent", w)
+            else:
+                ctx.violation(f"{t}/pair/{combo}/fabricated-or-truncated-data/{kind}", "read() returned data although the peer never sent that message completely", w)
+        elif not (res[2] or res[3]):
+            ctx.violation(f"{t}/pair/{combo}/{base}/{kind}/{res[1]}", "connection loss with two operations in flight surfaces as something other than a timeout / connection error / EOF", w)
+        # bounded end: caller timeout + ack time; without a caller timeout the clock starts at the loss (or, for a silent peer, at the
+        # local close / at the end of the other operation's caller timeout)
+        if isinstance(to, float):
+            late = dur > to + ack + 0.05 + TOL
+        else:
+            ref = max(o["ts"], ct or 0.0, closer_ts)
+            late = o["te"] > ref + others_t + ack + 0.05 + TOL
+        if late:
+            ctx.violation(f"{t}/pair/{combo}/unbounded/{base}/{kind}/{tkey}", "the operation ended later than caller timeout + ack time after the connection was cut", w)
+
+
 async def run_client_level(sc: dict[str, Any]) -> dict[str, Any]:
     from gallia.services.uds.core import service
     from gallia.services.uds.core.client import UDSClient
@@ -229,12 +469,16 @@ async def run_client_level(sc: dict[str, Any]) -> dict[str, Any]:
             out["connect_exc"] = type(e).__name__
             out["accepted"] = len(hub.connections)
             return out
-        cl = UDSClient(tr, timeout=sc["timeout"], max_retry=sc["max_retry"])
+        from gallia.services.uds.core.client import UDSRequestConfig
+
+        # "configured with at least one retry": either client-wide (constructor) or for the one request (UDSRequestConfig, the
+        # documented per-request override, on a client built with the default max_retry=0)
+        via_config = sc.get("retry_via") == "request-config"
+        cl = UDSClient(tr, timeout=sc["timeout"], max_retry=0 if via_config else sc["max_retry"])
+        cfg = UDSRequestConfig(max_retry=sc["max_retry"]) if via_config else None
         if sc.get("two_requests"):
             # a first request without retries meets the loss (and may leave the connection closed locally, e.g. after an ack timeout);
             # the request that is judged is the next one on the same client, which has its retries
-            from gallia.services.uds.core.client import UDSRequestConfig
-
             try:
                 r1 = await cl.request(service.ReadDataByIdentifierRequest(0xF190), UDSRequestConfig(max_retry=0))
                 out["first"] = ("ok", r1.pdu)
@@ -242,7 +486,7 @@ async def run_client_level(sc: dict[str, Any]) -> dict[str, Any]:
                 out["first"] = ("exc", type(e).__name__, isinstance(e, ConnectionError), isinstance(e, TimeoutError), repr(e)[:160], type(e.__cause__).__name__ if e.__cause__ else None)
         ts = loop.time()
         try:
-            resp = await cl.request(service.ReadDataByIdentifierRequest(0xF190))
+            resp = await cl.request(service.ReadDataByIdentifierRequest(0xF190), cfg)
             out["res"] = ("ok", resp.pdu)
         except BaseException as e:
             out["res"] = ("exc", type(e).__name__, isinstance(e, ConnectionError), isinstance(e, TimeoutError), repr(e)[:160], type(e.__cause__).__name__ if e.__cause__ else None)
@@ -418,6 +662,12 @@ def check_client(ctx: Any, sc: dict[str, Any], out: dict[str, Any]) -> None:
             ctx.reach("client.cut-after-pending")
     if sc.get("second_silent"):
         ctx.reach("client.second-connection-silent")
+    via_config = sc.get("retry_via") == "request-config"
+    if via_config and "connect_exc" not in out and k <= total:
+        ctx.reach("client.retry-via-request-config")
+        ctx.reach(f"client.retry-via-request-config:{sc['kind']}")
+        if sc.get("pending") and lab in ("reply", "end"):
+            ctx.reach("client.retry-via-request-config.cut-after-pending")
     if sc.get("two_requests") and "first" in out:
         ctx.reach("client.two-requests")
         f = out["first"]
@@ -446,6 +696,8 @@ def check_client(ctx: Any, sc: dict[str, Any], out: dict[str, Any]) -> None:
             return
         if k <= total and out["accepted"] >= 2:
             ctx.reach(f"recovered:{t}")
+            if via_config:
+                ctx.reach(f"recovered-via-request-config:{t}")
             if out["accepted"] != (3 if sc.get("second_silent") else 2) and False:
                 ctx.violation(f"{t}/client/connections-per-reconnect", f"the peer saw {out['accepted']} connections for one reconnect", w)
         return
@@ -464,13 +716,14 @@ def check_client(ctx: Any, sc: dict[str, Any], out: dict[str, Any]) -> None:
     if not reconnect_in_time(sc, out):
         ctx.reach("client.peer-back-too-late")
         return
-    ctx.violation(f"{t}/client/no-recovery/{sc['kind']}/{where}/{res[1]}", "the peer accepted connections again in time but the client (max_retry >= 1) did not obtain the reply", w)
+    ctx.violation(f"{t}/client/no-recovery/{sc['kind']}/{where}/{res[1]}{'/retry-via-request-config' if via_config else ''}",
+                  "the peer accepted connections again in time but the client (max_retry >= 1" + (" given by the per-request config" if via_config else "") + ") did not obtain the reply", w)
 
 
 def one(ctx: Any, sc: dict[str, Any]) -> None:
     total = sum(len(f) for _, f in peer_stream(sc["transport"], sc.get("pending", False)))
-    ctx.case(repr(sc), nontrivial=sc["cut_at"] is not None and sc["cut_at"] < total)
-    coro = run_client_level(sc) if sc["level"] == "client" else run_reconnect_api(sc) if sc["level"] == "reconnect-api" else run_transport_level(sc)
+    ctx.case(repr(sc), nontrivial=(sc["cut_at"] is not None and sc["cut_at"] < total) or sc.get("cut_after") is not None)
+    coro = run_client_level(sc) if sc["level"] == "client" else run_reconnect_api(sc) if sc["level"] == "reconnect-api" else run_pair_level(sc) if sc["level"] == "pair" else run_transport_level(sc)
     try:
         out = vtime.run(coro, horizon=HORIZON, cpu_limit=45.0)
     except vtime.Spinning:
@@ -482,7 +735,7 @@ def one(ctx: Any, sc: dict[str, Any]) -> None:
         return
     except vtime.Deadlock:
         lab, where = frame_position(sc["transport"], sc["cut_at"] or 0, sc.get("pending", False))
-        ctx.violation(f"{sc['transport']}/{sc['level']}/blocks-forever/{sc['kind']}/{'timeout' if sc['timeout'] is not None else 'no-timeout'}/cut-in-{lab}",
+        ctx.violation(f"{sc['transport']}/{sc['level']}{'/' + sc['combo'] if 'combo' in sc else ''}/blocks-forever/{sc['kind']}/{'timeout' if sc['timeout'] is not None else 'no-timeout'}/cut-in-{lab}",
                       "the pending operation can never complete after the connection was cut (nothing scheduled, nothing readable)", {"scenario": sc})
         return
     ctx.trace((sc["transport"], sc["level"], sc["kind"], tuple((o["op"], o["res"][0] if o["res"][0] == "ok" else o["res"][1]) for o in out.get("ops", [])), out.get("res", (None, None))[:2]))
@@ -490,6 +743,8 @@ def one(ctx: Any, sc: dict[str, Any]) -> None:
         check_client(ctx, sc, out)
     elif sc["level"] == "reconnect-api":
         check_reconnect_api(ctx, sc, out)
+    elif sc["level"] == "pair":
+        check_pair(ctx, sc, out)
     else:
         check_transport(ctx, sc, out)
 
@@ -544,13 +799,15 @@ async def real_case(ctx: Any, sc: dict[str, Any], sockdir: str) -> None:
     loop = asyncio.get_running_loop()
     w = {"scenario": sc}
     try:
+        from gallia.services.uds.core.client import UDSRequestConfig
+
         tr = await cls.connect(target, timeout=2.0)
-        cl = UDSClient(tr, timeout=sc["timeout"], max_retry=sc["max_retry"])
+        via_config = sc.get("retry_via") == "request-config"
+        cl = UDSClient(tr, timeout=sc["timeout"], max_retry=0 if via_config else sc["max_retry"])
+        cfg = UDSRequestConfig(max_retry=sc["max_retry"]) if via_config else None
         if sc.get("two_requests"):
             # a first request without retries meets the loss (and may leave the connection closed locally, e.g. after an ack timeout);
             # the request that is judged is the next one on the same client, which has its retries
-            from gallia.services.uds.core.client import UDSRequestConfig
-
             try:
                 r1 = await cl.request(service.ReadDataByIdentifierRequest(0xF190), UDSRequestConfig(max_retry=0))
                 out["first"] = ("ok", r1.pdu)
@@ -558,7 +815,7 @@ async def real_case(ctx: Any, sc: dict[str, Any], sockdir: str) -> None:
                 out["first"] = ("exc", type(e).__name__, isinstance(e, ConnectionError), isinstance(e, TimeoutError), repr(e)[:160], type(e.__cause__).__name__ if e.__cause__ else None)
         ts = loop.time()
         try:
-            resp = await asyncio.wait_for(cl.request(service.ReadDataByIdentifierRequest(0xF190)), 30)
+            resp = await asyncio.wait_for(cl.request(service.ReadDataByIdentifierRequest(0xF190), cfg), 30)
             res: tuple[Any, ...] = ("ok", resp.pdu)
         except TimeoutError as e:
             res = ("exc", type(e).__name__, False, True)
@@ -572,13 +829,15 @@ async def real_case(ctx: Any, sc: dict[str, Any], sockdir: str) -> None:
                 ctx.violation(f"real/{t}/wrong-reply", "request() over a real socket returned something other than the genuine reply", {**w, "res": res})
             elif cut:
                 ctx.reach("real.recovered")
+                if via_config:
+                    ctx.reach("real.recovered-via-request-config")
         else:
             if not cut:
                 ctx.violation(f"real/{t}/fails-without-cut/{res[1]}", "request() failed although the peer answered completely", {**w, "res": res})
             elif not (res[2] or res[3]):
                 ctx.violation(f"real/{t}/{sc['kind']}/{res[1]}", "connection loss surfaces as something other than a missing response / connection error", {**w, "res": res})
             elif sc["kind"] in ("eof", "reset") and sc["max_retry"] >= 1 and cut:
-                ctx.violation(f"real/{t}/no-recovery/{sc['kind']}/{res[1]}", "peer closed/reset the first connection and accepts again, but the client with max_retry>=1 did not obtain the reply", {**w, "res": res})
+                ctx.violation(f"real/{t}/no-recovery/{sc['kind']}/{res[1]}{'/retry-via-request-config' if via_config else ''}", "peer closed/reset the first connection and accepts again, but the client with max_retry>=1 did not obtain the reply", {**w, "res": res})
         if dur > (sc["max_retry"] + 1) * (sc["timeout"] + 1.5) + 2:
             ctx.violation(f"real/{t}/unbounded/{sc['kind']}", "request() over a real socket took longer than the retry/timeout bounds allow", {**w, "dur": dur})
         try:
@@ -592,11 +851,145 @@ async def real_case(ctx: Any, sc: dict[str, Any], sockdir: str) -> None:
         server.close()  # never awaited: Server.wait_closed() can hang on 3.12.1 with open connections
 
 
+async def real_pair_case(ctx: Any, sc: dict[str, Any], sockdir: str) -> None:
+    """tcp-lines / unix-lines on real loopback sockets: a task is suspended in read() without caller timeout after the peer took the
+    request and closed / reset / stalled; another task then calls close() or reconnect(). Real-socket counterpart of the virtual
+    read+close / read+reconnect combinations (there the effect of a local close on a suspended reader is a model, here it is asyncio's)."""
+    t, kind, combo = sc["transport"], sc["kind"], sc["combo"]
+    reply_line = hexlify(REPLY) + b"\n"
+    accepted: list[Any] = []
+
+    async def handle(reader: asyncio.StreamReader, writer: asyncio.StreamWriter) -> None:
+        n = len(accepted)
+        accepted.append(writer)
+        try:
+            line = await reader.readline()
+            if not line:
+                return
+            if n == 0:
+                writer.write(reply_line[: sc["cut_at"]])
+                await writer.drain()
+                if kind == "reset":
+                    writer.get_extra_info("socket").setsockopt(socket.SOL_SOCKET, socket.SO_LINGER, struct.pack("ii", 1, 0))
+                if kind == "silence":
+                    await asyncio.sleep(3600)
+                return
+            writer.write(reply_line)
+            await writer.drain()
+            await reader.read()
+        except (ConnectionError, asyncio.CancelledError):
+            pass
+        finally:
+            writer.close()
+
+    if t == "tcp-lines":
+        server = await asyncio.start_server(handle, "127.0.0.1", 0)
+        target = f"tcp-lines://127.0.0.1:{server.sockets[0].getsockname()[1]}"
+    else:
+        path = os.path.join(sockdir, f"p{os.getpid()}-{sc['idx']}.sock")
+        server = await asyncio.start_unix_server(handle, path)
+        target = f"unix-lines://{path}"
+    w = {"scenario": sc}
+    BOUND = 8.0  # real seconds; the operations themselves need milliseconds
+
+    async def outcome(coro: Any) -> tuple[Any, ...]:
+        try:
+            r = await coro
+            return ("ok", r if isinstance(r, bytes) else None, r)
+        except BaseException as e:
+            return ("exc", type(e).__name__, isinstance(e, ConnectionError), isinstance(e, TimeoutError))
+
+    try:
+        tr = await transport_class(t).connect(target, timeout=2.0)
+        await tr.write(REQ, timeout=2.0)
+        rt = asyncio.ensure_future(outcome(tr.read(timeout=None)))
+        await asyncio.sleep(0.15)
+        ctx.reach("real.pair-cases")
+        if not rt.done():
+            ctx.reach("real.closer-while-read-pending")
+        cres = await outcome(asyncio.wait_for(tr.reconnect(timeout=3.0) if combo == "read+reconnect" else tr.close(), BOUND))
+        if cres[0] != "ok":
+            ctx.violation(f"real/{t}/pair/{combo}/{'blocks' if cres[3] else 'raises'}/{kind}/{cres[1]}", "close()/reconnect() from another task after the loss, with a read() suspended on the transport, raises or does not return", {**w, "res": cres[:2]})
+        done, _ = await asyncio.wait({rt}, timeout=BOUND)
+        if not done:
+            ctx.violation(f"real/{t}/pair/{combo}/blocks-forever/read/{kind}", "the suspended read() did not end after the loss and the local close", w)
+            rt.cancel()
+        else:
+            rres = rt.result()
+            if rres[0] == "ok" and rres[1] not in (b"", REPLY):
+                ctx.violation(f"real/{t}/pair/{combo}/fabricated-or-truncated-data/{kind}", "read() returned data the peer never sent completely", {**w, "res": rres[:2]})
+            elif rres[0] == "ok" and rres[1] == REPLY and sc["cut_at"] < len(reply_line):
+                ctx.violation(f"real/{t}/pair/{combo}/fabricated-or-truncated-data/{kind}", "read() returned a reply the peer never sent completely", {**w, "res": rres[:2]})
+            elif rres[0] == "exc" and not (rres[2] or rres[3]):
+                ctx.violation(f"real/{t}/pair/{combo}/read/{kind}/{rres[1]}", "the suspended read() ends with something other than a timeout / connection error / EOF", {**w, "res": rres[:2]})
+        if combo == "read+reconnect" and cres[0] == "ok":
+            tr2 = cres[2]
+            r2 = await outcome(tr2.request(REQ, timeout=2.0))
+            if r2[:2] != ("ok", REPLY):
+                ctx.violation(f"real/{t}/pair/{combo}/new-connection-unusable/{r2[1] if r2[0] == 'exc' else 'other-data'}", "the transport returned by reconnect() cannot complete an exchange", {**w, "res": r2[:2]})
+            else:
+                ctx.reach("real.pair-reconnect-recovered")
+            c2 = await outcome(asyncio.wait_for(tr2.close(), BOUND))
+            if c2[0] != "ok":
+                ctx.violation(f"real/{t}/close/{c2[1]}", "closing the transport raises", w)
+        for _ in range(2):
+            c = await outcome(asyncio.wait_for(tr.close(), BOUND))
+            if c[0] != "ok":
+                ctx.violation(f"real/{t}/close/{c[1]}", "closing the transport (twice) raises", w)
+    finally:
+        for wr in accepted:
+            wr.close()
+        server.close()  # never awaited: Server.wait_closed() can hang on 3.12.1 with open connections
+
+
+def run_pairs(ctx: Any, params: dict[str, Any]) -> None:
+    """two operations from two tasks on one transport x every cut offset after the handshake x cut kind x caller timeouts"""
+    t = params["transport"]
+    framed = t in ("doip", "hsfz")
+    frames = peer_stream(t)
+    total = sum(len(f) for _, f in frames)
+    hs = sum(len(f) for l, f in frames if l == "rar")
+    ack_end = hs + sum(len(f) for l, f in frames if l == "ack")
+    thorough = ctx.tier == "thorough"
+    # (first operation's timeout, second operation's timeout); a read without caller timeout is only required to end after EOF / reset
+    # (or after the local close in the closer combinations), a write without caller timeout is bounded by the ack time
+    lossy = [(None, None), (2.0, None), (None, 0.3), (0.3, 2.0)]
+    base = {"transport": t, "level": "pair", "cut_at": None, "timeout": None}
+    for k in range(hs, total + 1):
+        for kind in ("eof", "reset", "silence"):
+            sil = kind == "silence"
+            for t1, t2 in ([(None, 2.0), (0.3, 2.0), (2.0, 0.3)] if sil else lossy):
+                one(ctx, {**base, "combo": "write+read", "cut_at": k, "kind": kind, "t1": t1, "t2": t2, "timeout": None if None in (t1, t2) else t1})
+            if k >= ack_end:
+                if framed:
+                    for t1, t2 in ([(0.3, 2.0), (2.0, 0.3)] if sil else lossy):
+                        one(ctx, {**base, "combo": "read+read", "cut_at": k, "kind": kind, "t1": t1, "t2": t2, "timeout": None if None in (t1, t2) else t1})
+                for combo in ("read+close", "read+reconnect"):
+                    for t1 in (None, 2.0):
+                        for delay in ((0.3, 1.2) if thorough else (0.3,)):
+                            one(ctx, {**base, "combo": combo, "cut_at": k, "kind": kind, "t1": t1, "t2": None, "timeout": t1, "close_delay": delay})
+            elif framed:
+                for t1 in (None, 2.0, 0.3):
+                    one(ctx, {**base, "combo": "write+close", "cut_at": k, "kind": kind, "t1": t1, "t2": None, "timeout": t1, "close_delay": 0.3})
+        if ctx.out_of_time():
+            break
+    # a listener is suspended in read() when another task starts a write(); the peer cuts the connection `cut_after` seconds later
+    # (before the ack, between ack and reply, in the reply's neighbourhood, after the complete exchange)
+    for ca in (0.004, 0.0125, 0.0201, 0.05, 0.7):
+        for kind in ("eof", "reset", "silence"):
+            for t1, t2 in ([(2.0, None), (0.3, 2.0), (2.0, 0.3)] if kind == "silence" else lossy):
+                one(ctx, {**base, "combo": "read+write", "cut_after": ca, "kind": kind, "t1": t1, "t2": t2, "timeout": None if None in (t1, t2) else t1})
+    ctx.sample({"transport": t, "pair-combos": list(PAIR_COMBOS), "offsets": [hs, total]})
+
+
 def run(ctx: Any, params: dict[str, Any]) -> None:
     import gallia.command  # noqa: F401
 
     vtime.quiet_logging()
     rng = ctx.rng
+    if params["mode"] == "virtual" and params.get("pair"):
+        run_pairs(ctx, params)
+        return
     if params["mode"] == "virtual":
         t = params["transport"]
         frames = peer_stream(t)
@@ -621,18 +1014,20 @@ def run(ctx: Any, params: dict[str, Any]) -> None:
                             continue
                         one(ctx, {"transport": t, "level": "transport", "cut_at": k, "kind": kind, "timeout": to})
                 else:
-                    for d in (0.0, 0.05, 1.5):
-                        for mr in (1, 2):
-                            if mr == 2 and (k % 2 or d == 0.05):
-                                continue
-                            one(ctx, {"transport": t, "level": "client", "cut_at": k, "kind": kind, "timeout": rng.choice([0.3, 2.0]), "restart_at": d, "max_retry": mr})
+                    # the retry count comes from the constructor or (client built with the default max_retry=0) from the per-request config
+                    for via in VIAS:
+                        for d in (0.0, 0.05, 1.5):
+                            for mr in (1, 2):
+                                if mr == 2 and (k % 2 or d == 0.05):
+                                    continue
+                                one(ctx, {"transport": t, "level": "client", "cut_at": k, "kind": kind, "timeout": rng.choice([0.3, 2.0]), "restart_at": d, "max_retry": mr, "retry_via": via})
+                        # the loss hits a request without retries; the next request on the same client (one retry) must still get through
+                        one(ctx, {"transport": t, "level": "client", "cut_at": k, "kind": kind, "timeout": rng.choice([0.3, 2.0]), "restart_at": 0.0, "max_retry": 1, "two_requests": True, "retry_via": via})
+                        if t == "doip" and kind != "silence":
+                            # the restarting gateway accepts the first reconnect but stays silent on routing activation; later connections work
+                            one(ctx, {"transport": t, "level": "client", "cut_at": k, "kind": kind, "timeout": 2.0, "restart_at": 0.0, "max_retry": 1, "second_silent": True, "retry_via": via})
                     # the peer never accepts a connection again: the request still has to end (with an error) in bounded time
-                    one(ctx, {"transport": t, "level": "client", "cut_at": k, "kind": kind, "timeout": rng.choice([0.3, 2.0]), "restart_at": 1e9, "max_retry": rng.choice([1, 2])})
-                    # the loss hits a request without retries; the next request on the same client (one retry) must still get through
-                    one(ctx, {"transport": t, "level": "client", "cut_at": k, "kind": kind, "timeout": rng.choice([0.3, 2.0]), "restart_at": 0.0, "max_retry": 1, "two_requests": True})
-                    if t == "doip" and kind != "silence":
-                        # the restarting gateway accepts the first reconnect but stays silent on routing activation; later connections work
-                        one(ctx, {"transport": t, "level": "client", "cut_at": k, "kind": kind, "timeout": 2.0, "restart_at": 0.0, "max_retry": 1, "second_silent": True})
+                    one(ctx, {"transport": t, "level": "client", "cut_at": k, "kind": kind, "timeout": rng.choice([0.3, 2.0]), "restart_at": 1e9, "max_retry": rng.choice([1, 2]), "retry_via": rng.choice(VIAS)})
             if ctx.out_of_time():
                 break
         if params["client"]:
@@ -646,7 +1041,7 @@ def run(ctx: Any, params: dict[str, Any]) -> None:
                 # the client's automatic reconnect of a DoIP transport keeps trying for 10 s
                 for d in (3.1, 6.5, 8.8):
                     for kind in ("eof", "reset"):
-                        one(ctx, {"transport": t, "level": "client", "cut_at": rng.choice(offsets), "kind": kind, "timeout": 2.0, "restart_at": d, "max_retry": 1})
+                        one(ctx, {"transport": t, "level": "client", "cut_at": rng.choice(offsets), "kind": kind, "timeout": 2.0, "restart_at": d, "max_retry": 1, "retry_via": rng.choice(VIAS)})
             # responsePending first, then the connection is lost at every offset of pending + final reply
             pframes = peer_stream(t, True)
             ptotal = sum(len(f) for _, f in pframes)
@@ -654,7 +1049,8 @@ def run(ctx: Any, params: dict[str, Any]) -> None:
             for k in range(start, ptotal + 1, params["step"]):
                 for kind in ("eof", "reset"):
                     for mr in (1, 2):
-                        one(ctx, {"transport": t, "level": "client", "cut_at": k, "kind": kind, "timeout": rng.choice([0.3, 2.0]), "restart_at": 0.0, "max_retry": mr, "pending": True})
+                        for via in VIAS:
+                            one(ctx, {"transport": t, "level": "client", "cut_at": k, "kind": kind, "timeout": rng.choice([0.3, 2.0]), "restart_at": 0.0, "max_retry": mr, "pending": True, "retry_via": via})
         ctx.sample({"transport": t, "peer_stream": [(l, f) for l, f in frames], "offsets": offsets[:12]})
         return
     # real sockets
@@ -673,6 +1069,24 @@ def run(ctx: Any, params: dict[str, Any]) -> None:
                 ctx.violation(f"real/{t}/hangs/{sc['kind']}", "the exchange over a real socket did not end within the watchdog", {"scenario": sc})
             if i == 0:
                 ctx.sample({"real": sc})
+        n = params["n"]
+        for j in range(2 if ctx.tier == "quick" else 8):
+            # the retry count of the request comes from the per-request config; the loss is one the statement promises recovery from
+            sc = {"transport": ("tcp-lines", "unix-lines")[j % 2], "idx": n + j, "cut_at": rng.choice([0, 1, 5, 12, 24]), "kind": rng.choice(["eof", "reset"]), "timeout": 0.3, "max_retry": rng.choice([1, 2]), "retry_via": "request-config"}
+            ctx.case(("real", repr(sc)))
+            try:
+                await asyncio.wait_for(real_case(ctx, sc, sockdir), 60)
+            except TimeoutError:
+                ctx.violation(f"real/{sc['transport']}/hangs/{sc['kind']}", "the exchange over a real socket did not end within the watchdog", {"scenario": sc})
+        for j in range(4 if ctx.tier == "quick" else 12):
+            # a read() without caller timeout is suspended when another task closes / reconnects the transport after the loss
+            sc = {"transport": ("tcp-lines", "unix-lines")[j % 2], "idx": n + 20 + j, "pair": True, "combo": ("read+close", "read+reconnect")[(j // 2 + params["part"]) % 2],
+                  "cut_at": rng.choice([0, 1, 12, 24]), "kind": ("silence", "silence", "eof", "reset")[(j + params["part"]) % 4]}
+            ctx.case(("real-pair", repr(sc)))
+            try:
+                await asyncio.wait_for(real_pair_case(ctx, sc, sockdir), 60)
+            except TimeoutError:
+                ctx.violation(f"real/{sc['transport']}/pair/hangs/{sc['kind']}", "the exchange over a real socket did not end within the watchdog", {"scenario": sc})
 
     asyncio.run(go())
 
@@ -684,5 +1098,7 @@ def replay(ctx: Any, witness: dict[str, Any]) -> None:
     sc = witness["scenario"]
     if "level" in sc:
         one(ctx, sc)
+    elif sc.get("pair"):
+        asyncio.run(real_pair_case(ctx, sc, str(ctx.mkscratch())))
     else:
         asyncio.run(real_case(ctx, sc, str(ctx.mkscratch())))
